@@ -13,12 +13,16 @@ pub mod c12;
 pub mod posthoc;
 pub mod c13;
 pub mod c14;
+pub mod c15;
+pub mod c16;
+pub mod c17;
+pub mod c18;
 pub mod common;
 
 use crate::engine::*;
 use crate::sim::scenario::Scenario;
 
-pub const ALL: &[&str] = &["C01", "C02", "C03", "C04", "C05", "C06", "C07", "C08", "C09", "C10", "C11", "C12", "C13", "C14"];
+pub const ALL: &[&str] = &["C01", "C02", "C03", "C04", "C05", "C06", "C07", "C08", "C09", "C10", "C11", "C12", "C13", "C14", "C15", "C16", "C17", "C18"];
 
 pub fn run_prop(ctx: &Ctx) -> Option<PropReport> {
     Some(match ctx.prop {
@@ -36,6 +40,10 @@ pub fn run_prop(ctx: &Ctx) -> Option<PropReport> {
         "C12" => c12::run_prop(ctx),
         "C13" => c13::run(ctx),
         "C14" => c14::run(ctx),
+        "C15" => c15::run_prop(ctx),
+        "C16" => c16::run_prop(ctx),
+        "C17" => c17::run_prop(ctx),
+        "C18" => c18::run_prop(ctx),
         _ => return None,
     })
 }
@@ -49,6 +57,10 @@ pub fn replay(prop: &str, part: &str, case: &serde_json::Value) -> Option<CaseRe
         ("C02", _) => c02::eval(&sc()?),
         ("C03", _) => c03::eval(&sc()?),
         ("C14", _) => c14::replay(part, case)?,
+        ("C15", _) => c15::eval(&sc()?),
+        ("C16", _) => c16::replay(part, case)?,
+        ("C17", _) => c17::eval(&sc()?),
+        ("C18", _) => c18::eval(&sc()?),
         ("C04", _) => c04::eval(&sc()?),
         ("C05", _) => c05::eval(&sc()?),
         ("C06", _) => c06::eval(&sc()?),
